@@ -215,12 +215,23 @@ class SourceStream:
         self.name = name
         self._fault = fault
         self.bytes_read = 0
+        self.track = False          # observe which chunks handed to the library are still referenced
+        self.handed = []
+        self.max_alive = 0
 
     def readable(self):
         return True
 
     def seekable(self):
         return self._seekable
+
+    def _alive(self):
+        """how many of the chunks handed out so far something still holds on to (the list
+        `handed`, the loop variable and getrefcount's argument account for 3 references)"""
+        import gc
+        import sys
+        gc.collect()
+        return sum(1 for c in self.handed if sys.getrefcount(c) > 3)
 
     def read(self, n=-1):
         s = self._s
@@ -237,6 +248,15 @@ class SourceStream:
         d = self._b.read(n)
         self.ops.append(('read', pos, n, len(d)))
         self.bytes_read += len(d)
+        if self.track:
+            alive = self._alive()
+            if alive > self.max_alive:
+                self.max_alive = alive
+            s.emit('src.read', name=self.name, pos=pos, n=len(d), alive=alive)
+            if len(d) > 1:              # (0- and 1-byte objects are interpreter-wide singletons)
+                d = bytes(bytearray(d))  # a fresh object of our own
+                self.handed.append(d)
+            return d
         s.emit('src.read', name=self.name, pos=pos, n=len(d))
         return d
 
